@@ -81,7 +81,7 @@ def transform(run, repo, f):
     if call is None:
         run.undecided('R2', f, 'pauli_transform', 'no call of pauli_combine')
         return
-    args = [norm(a) for a in call.args]
+    args = K.actual_texts(callee, call)
     run.check(args == [gs_in, gs_map, ps_map], 'R2.combine', f, call,
               'the operator bits select rows of the map: expected pauli_combine(%s, %s, %s)' % (gs_in, gs_map, ps_map))
     # formula
@@ -110,6 +110,34 @@ def transform(run, repo, f):
     run.check(not extra, 'R6.formula', f, formula, 'unexpected extra phase terms %s' % extra)
 
 
+def correction_sites(run, repo, f, rule='R6.xz'):
+    """Wherever a phase adds ps0(X) to the phase returned by pauli_combine(S, rows, phases), X must be S: the x.z correction
+    belongs to the very strings whose bits select the rows (Y = i X Z on the *transformed* qubits only)."""
+    from ..names import deref
+    comb = {}
+    for st, ctx in walk(f.node):
+        if isinstance(st, ast.Assign) and isinstance(st.value, ast.Call) and norm(st.value.func) == 'pauli_combine' \
+                and isinstance(st.targets[0], ast.Tuple) and len(st.targets[0].elts) == 2 and st.value.args:
+            comb[norm(st.targets[0].elts[1])] = norm(deref(f, st.value.args[0]))
+    n = 0
+    for st, ctx in walk(f.node):
+        if not isinstance(st, ast.Assign):
+            continue
+        inner, _ = pair.strip_mod(st.value, 4)
+        terms = pair.summands(inner)
+        p0 = [t for s_, t in terms if isinstance(t, ast.Call) and norm(t.func).split('.')[-1] == 'ps0' and t.args]
+        used = [norm(t) for s_, t in terms if norm(t) in comb]
+        if not p0 or not used:
+            continue
+        for c in p0:
+            got = norm(deref(f, c.args[0]))
+            for u in used:
+                n += 1
+                run.check(got == comb[u], rule, f, st, 'the x.z correction ps0(%s) must be taken on the strings that select the map rows (%s): '
+                          'a Y outside the transformed qubits must not contribute a factor i' % (got, comb[u]))
+    return n
+
+
 def check(run):
     repo = run.repo
     K.kernel_form(run, repo, K.PY_U, 'ps0', 'loop', None, 'p0')
@@ -117,16 +145,19 @@ def check(run):
     for rel in (K.PY_U, K.TC_U):
         combine(run, repo.func(rel, 'pauli_combine'))
         transform(run, repo, repo.func(rel, 'pauli_transform'))
+    for f in repo.all_funcs():
+        correction_sites(run, repo, f)
     for rel in (K.PY_P, K.TC_P):
         f = repo.func(rel, 'PauliList.transform_by')
         inout.check_function(run, repo, f, {'pauli_transform'})
         bind.check_function_calls(run, repo, f, only={'pauli_transform'})
         bind.check_unpacks(run, repo, f)
         parallel.mask_expansion(run, f)
+        parallel.masked_selection(run, repo, f, {'pauli_transform'})
         mp = f.posparams[1]
         for c, t, h in repo.callees(f):
             if h == 'name' and t[0].name == 'pauli_transform':
-                args = [norm(a) for a in c.args]
+                args = K.actual_texts(t[0], c)
                 run.check(args[2:] == ['%s.gs' % mp, '%s.ps' % mp], 'R2.map', f, c,
                           'the map rows and phases must be passed as (gs_map, ps_map)')
                 run.check(args[0].startswith('self.gs') and args[1] == 'self.ps', 'R2.map', f, c,
@@ -190,6 +221,8 @@ def check(run):
     run.floor('R6.formula', 8)
     run.floor('R5', 8)
     run.floor('R13.embed', 4)
+    run.floor('R13.masksel', 2)
+    run.floor('R6.xz', 4)
     run.floor('R13.mask', 4)
     run.floor('R8', 2)
     run.decide('pauli_combine is the ordered product of the selected rows (accumulator left, ascending, phase before '
